@@ -559,8 +559,13 @@ fn run_ext_case(drv: &mut Model, rep: &mut Report, log: &mut Vec<String>, s: &Ex
             }
             Err(e) => rep.oracle.push(format!("honest round-two message not accepted ({e}) -- {}", s.describe())),
         }
-    } else {
+    } else if s.buf.iter().all(|x| *x == 0) {
         rep.oracle.push(format!("honest round-one message rejected by the sender ({impl_v}) -- {}", s.describe()));
+    } else {
+        // A caller-supplied Round1Output that is not the Default value: SoftSpokenOTReceiver::process XORs
+        // into it, so the message is garbage and the sender aborts.  Not an honest run (every caller in the
+        // repository passes Default); these cases only validate the model's accumulate-vs-overwrite reading.
+        rep.kind("ext-reused-buffer-sender-aborts");
     }
     let _ = drv.call("c01.drop", &[id]);
     let _ = t0;
@@ -648,7 +653,7 @@ pub fn ext_case(seed: u64, k: usize) -> ExtSession {
     let (a1, n1) = input_scalar(k / 5 + k + 1, &mut r);
     let (sid, sn) = session_id(k, &mut r);
     let pipeline = k % 3 == 2;
-    let dirty = k % 4 == 3;
+    let dirty = k % 8 == 3;
     let mut buf = vec![0u8; R1_BYTES];
     if dirty {
         r.fill_bytes(&mut buf);
